@@ -116,7 +116,7 @@ class Hand(Hashable, ABC):
     def __init__(self, cards: CardsLike) -> None:
         self.__cards = Card.clean(cards)
 
-        if not self.lookup.has_entry(self.cards):
+        if not self.lookup.has_entry(self.cards) or not all(self.cards):
             raise ValueError(
                 (
                     f'The cards {repr(cards)} form an invalid'
